@@ -99,7 +99,7 @@ def Coll.search (E : Env) (c : Coll) (field : String) (op : Option Op) (probe : 
               | none => (c, Search.failed .pattern)
               | some m =>
                 let us := match constrain with
-                          | some cs => cs.map (fun e => (l.index.uuidOf e.2).getD 0)
+                          | some cs => cs.filterMap (fun e => l.index.uuidOf e.2)   -- deleted objects are left out
                           | none => l.index.uuids
                 match Coll.scan c l m op pos pv us [] with
                 | (c, r, none) => (c, { fields := r, orderPos := none })
